@@ -34,6 +34,9 @@ type c11Ref struct {
 	// is the includer's variable at that point
 	InnerSv string `json:"inner_sv,omitempty"`
 	Dead    bool   `json:"never_executed,omitempty"` // lazy include under a false condition
+	// AeOff: the include sits in an `autoescape off` block. That block belongs to the includer's
+	// rendering; the included template is rendered as it always is - by literal and by computed name alike
+	AeOff bool `json:"in_autoescape_off,omitempty"`
 	// Var / GlobalName (lazy includes of the top-level file only): the name is the value of the
 	// context variable Var; the set's Globals bind the same variable to GlobalName, another
 	// name - the caller's context wins, and what counts is the value at run time
@@ -294,7 +297,7 @@ func c11Gen(tp *Tapes) *c11Spec {
 // c11Ctx is the caller's context of every execution: pv, plus the variables that lazy
 // includes of the top-level file take their names from.
 func c11Ctx(sp *c11Spec) pongo2.Context {
-	ctx := pongo2.Context{"pv": "P"}
+	ctx := pongo2.Context{"pv": c11PV}
 	for _, r := range sp.Files[0].Refs {
 		if r.Var != "" {
 			ctx[r.Var] = r.Name
@@ -449,6 +452,7 @@ func c11Finish(tp *Tapes, sp *c11Spec) {
 				if ref.Type == "lazy" && g.Draw(6) == 0 {
 					ref.Dead = true
 				}
+				ref.AeOff = g.Draw(4) == 0
 				if ref.Type == "lazy" && i == 0 && g.Draw(2) == 0 {
 					ref.Var = fmt.Sprintf("lzn%d", r)
 					ref.GlobalName = "no/such/global-name.tpl"
@@ -516,11 +520,17 @@ func c11RefText(ref c11Ref, k int) string {
 		if ref.InnerSv != "" {
 			return fmt.Sprintf(`{%% with sv="%s" wv="w%s" %%}{%% include "%s"%s %%}{%% endwith %%}`, ref.InnerSv, ref.InnerSv, ref.Name, tail)
 		}
+		if ref.AeOff {
+			return fmt.Sprintf(`{%% autoescape off %%}{%% include "%s"%s %%}{%% endautoescape %%}`, ref.Name, tail)
+		}
 		return fmt.Sprintf(`{%% include "%s"%s %%}`, ref.Name, tail)
 	case "lazy":
 		s := fmt.Sprintf(`{%% include nl|default:"%s"%s %%}`, ref.Name, tail)
 		if ref.Var != "" {
 			s = fmt.Sprintf(`{%% include %s%s %%}`, ref.Var, tail)
+		}
+		if ref.AeOff {
+			s = "{% autoescape off %}" + s + "{% endautoescape %}"
 		}
 		if ref.Dead {
 			return "{% if no %}" + s + "{% endif %}"
@@ -567,6 +577,10 @@ func c11DiskPath(sp *c11Spec, p string) string {
 // ---- reference interpreter -----------------------------------------------------------
 
 type c11Env struct{ pv, wv, wv2, sv string }
+
+// the caller's pv needs escaping; every file prints it at the top level of its own rendering,
+// where autoescape is on (no set of this check switches it off)
+const c11PV, c11PVEscaped = "P<&", "P&lt;&amp;"
 
 type c11Fault struct {
 	Disk  int    `json:"disk"`
@@ -1095,7 +1109,7 @@ func (c11Checker) Run(tp *Tapes, opt RunOpt) *Outcome {
 		if c11StringEntry(sp.Entry) {
 			execName = "" // a string template passes names on unresolved: they resolve from ""
 		}
-		if !r.exec(node, execName, c11Env{pv: "P"}, &b) {
+		if !r.exec(node, execName, c11Env{pv: c11PVEscaped}, &b) {
 			res.Failed = true
 			return res, r.fetched, r.probes
 		}
